@@ -117,7 +117,8 @@ PROPS = {
         "level_text": "For generated leases (extreme and textually near-colliding ids), manifest groups (1-4 services, env incl. AKASH_* overrides, TCP/UDP global/local exposes, resources at and between bounds) and settings (commit levels 0.5-8, static ingress hosts, network policies, runtime classes): every builder object and every action recorded by the fake clientsets during two Deploy rounds is confined to the lease's namespace; containers are unprivileged without escalation or service-account token; limits equal the lease and 0 < requests <= limits; namespace names are valid DNS labels and injective over the run; with policies enabled a NetworkPolicy evaluator admits ingress from outside only for the ingress controller or globally exposed ports and no non-DNS egress to RFC1918 ranges. A third of the cases injects one API error (drawn verb x resource) into the update round and retries the same manifest: whatever Deploy reports as success must leave objects matching the manifest it was given. After a Deploy that FAILED on the injected error, workloads left in the namespace must still be covered by the restrictions and nothing beyond the ports exposed globally by the old or new manifest may be admitted; after an update, services and ingresses must equal those of a first deploy of the same manifest.",
         "level_note": "Trusted: client-go fake clientsets as the recording cluster; the harness's NetworkPolicy evaluator (standard additive allow semantics); 'private ranges' = RFC1918.",
         "assumptions": ["manifest groups are valid per ValidateManifest; a Deploy error is a refusal, not a violation"],
-        "units": [{"pkg": "provider/cluster/kube", "run": "^TestVerif_C11$", "checks": {Q: 400, T: 8000}, "shards": {Q: 2, T: 16}, "timeout": {Q: 600, T: 3000}, "shrinktime": "30s"}],
+        "units": [{"pkg": "provider/cluster/kube", "run": "^TestVerif_C11_Replay$", "checks": 1, "timeout": 300},
+                  {"pkg": "provider/cluster/kube", "run": "^TestVerif_C11$", "checks": {Q: 400, T: 8000}, "shards": {Q: 2, T: 16}, "timeout": {Q: 600, T: 3000}, "shrinktime": "30s"}],
     },
     "C09": {
         "level": "exploration", "floor": 0.3,
@@ -126,7 +127,7 @@ PROPS = {
         "level_note": "Trusted: Go crypto/tls and crypto/x509; wall clock only inside the code under test (validity windows are days away from the boundary); provider services are mockery mocks that record their arguments.",
         "assumptions": ["ECDSA P-256 certificates; TLS 1.3"],
         "units": [
-            {"pkg": "provider/gateway/rest", "run": "^TestVerif_C09_Replay$", "checks": 1, "timeout": 300},
+            {"pkg": "provider/gateway/rest", "run": "^TestVerif_C09_Replay", "checks": 1, "timeout": 300},
             {"pkg": "provider/gateway/rest", "run": "^TestVerif_C09_History$", "checks": {Q: 400, T: 8000}, "shards": {Q: 2, T: 16}, "timeout": {Q: 600, T: 3000}, "shrinktime": "30s"},
             {"pkg": "provider/gateway/rest", "run": "^TestVerif_C09_Overlap$", "checks": {Q: 300, T: 6000}, "shards": {Q: 2, T: 16}, "race": {Q: False, T: True}, "timeout": {Q: 600, T: 3000}, "shrinktime": "30s"},
             {"pkg": "provider/gateway/rest", "run": "^TestVerif_C09_Verify$", "checks": {Q: 400, T: 8000}, "shards": {Q: 2, T: 16}, "timeout": {Q: 600, T: 3000}, "shrinktime": "30s"},
